@@ -12,5 +12,6 @@ func moreGens() []struct {
 		{"Encoding.v", genEncoding},   // C18
 		{"Conv.v", genConv},           // C02
 		{"EdiConsts.v", genEdiConsts}, // C07
+		{"Safety.v", genSafety},       // C03
 	}
 }
